@@ -16,7 +16,7 @@ ASSUMPTIONS = ["models/device103.py: 103 9.7.2 left-aligned input value with rep
                "'healthy' device = answers QUERY DEVICE STATUS cleanly with neither 'short address is mask' nor 'reset state'"]
 EXHAUSTIVE = {"quick": False, "thorough": False}
 REQUIRED_ANCHORS = {"all": ["input_values_checked", "filters_8", "filters_16", "filters_24", "query_filters_checked",
-                            "schemes_checked", "discovery_runs", "discovery_faults", "sequence_faults", "interleaved_pairs"]}
+                            "schemes_checked", "discovery_runs", "discovery_faults", "sequence_faults", "interleaved_pairs", "abandoned_sequences", "rescans"]}
 SHARD_TIMEOUT = {"quick": 600, "thorough": 3000}
 
 
@@ -457,6 +457,45 @@ def run_discovery(desc, seed, res):
             res.violation("C13/discovery/not-bracketed", f"first command {names[:1]}, last {names[-1:]}", wit)
         if any(d.quiescent for d in devs):
             res.violation("C13/discovery/left-quiescent", "a device is still in quiescent mode after the scan", wit)
+        # a mapper that already holds entries (an earlier scan, `initial`, add_type) and scans a bus where units have been
+        # exchanged since: what the scan finds is what is recorded
+        if t % 3 == 1:
+            r3 = rng(seed, "C13", "rescan", desc["part"], t)
+            devs3 = make_population(rng(seed, "C13", "disc", desc["part"], t))
+            for d in devs3:
+                for x in d.instances:
+                    c = r3.random()
+                    if c < 0.35:
+                        x.itype = r3.choice([t2 for t2 in (1, 3, 4, 0, 2, 6, 31) if t2 != x.itype])
+                    elif c < 0.45:
+                        x.enabled = not x.enabled
+            how = r3.choice(["same-mapper", "initial", "add_type"])
+            if how == "same-mapper":
+                m3 = m
+            elif how == "initial":
+                m3 = DeviceInstanceTypeMapper(initial=dict(got))
+            else:
+                m3 = DeviceInstanceTypeMapper()
+                for (a, i), ty in got.items():
+                    m3.add_type(short_address=a, instance_number=i, instance_type=ty)
+            held = dict(m3.mapping)
+            res.hit("rescans")
+            try:
+                Bus(devs3, bound=64 * 70 + 10).run_sequence(m3.autodiscover())
+            except Exception as e:
+                res.violation(f"C13/rescan/raised/{type(e).__name__}", f"{type(e).__name__}: {e}", {**wit, "preloaded": how})
+                continue
+            want3 = expected_mapping(devs3, list(range(64)))
+            got3 = dict(m3.mapping)
+            stale = {k: (got3.get(k), v) for k, v in want3.items() if got3.get(k) != v}
+            invented = {k: v for k, v in got3.items() if k not in want3 and held.get(k) != v}
+            if stale:
+                res.violation("C13/rescan/found-type-not-recorded", f"mapper preloaded by {how}: after scanning a bus whose units were "
+                              f"exchanged, (address, instance): (recorded, on the bus) = {dict(list(stale.items())[:4])}",
+                              {**wit, "preloaded": how})
+            elif invented:
+                res.violation("C13/rescan/invented-entry", f"entries neither held before nor on the bus: {dict(list(invented.items())[:4])}",
+                              {**wit, "preloaded": how})
         # one fault somewhere in the scan
         if bus.n_commands > 2 and t % 2 == 0:
             pos = r.randrange(1, bus.n_commands - 1)
@@ -546,9 +585,10 @@ def run_interleaved(desc, seed, res):
         devs = make_population(rr)[:6]
         m = DeviceInstanceTypeMapper()
         return Bus(devs, bound=64 * 70 + 10), m.autodiscover(), lambda: sorted(m.mapping.items())
-    pairs.differential(res, "C13", rng(seed, "C13", "interleaved"),
-                       {"SetEventFilters": mk_setf, "QueryEventFilters": mk_qf, "query_input_value": mk_input,
-                        "SetEventSchemes": mk_scheme, "autodiscover": mk_disc}, desc["n"])
+    makers = {"SetEventFilters": mk_setf, "QueryEventFilters": mk_qf, "query_input_value": mk_input,
+              "SetEventSchemes": mk_scheme, "autodiscover": mk_disc}
+    pairs.differential(res, "C13", rng(seed, "C13", "interleaved"), makers, desc["n"])
+    pairs.abandon(res, "C13", rng(seed, "C13", "abandon"), makers, desc["n"])
 
 
 def run_shard(desc, tier, seed):
